@@ -72,12 +72,29 @@ pub fn run(args: &Args) {
         // a workbook with a chart whose categories come from another sheet is not reopened lazily (saving it with that
         // sheet unloaded is the recorded KF-C11-chart-cache-unloaded-sheet)
         let mut cross_chart: Vec<bool> = vec![false];
-        for opi in 0..nops {
-            let bi = rng.below(books.len() as u64) as usize;
+        // a fifth of the histories start with the life of a lazily opened workbook and its clone: text, lazy reopen, clone,
+        // materialise and edit one of the two, save it, save the other one (whose sheets are still raw), in either role
+        let script: Vec<(usize, u64)> = if rng.chance(1, 5) {
+            let (x, y) = if rng.chance(1, 2) { (1usize, 0usize) } else { (0, 1) };
+            vec![(0, 0), (0, 1), (0, 14), (0, 9), (x, 13), (x, 0), (x, 11), (y, 11), (x, 11)]
+        } else {
+            vec![]
+        };
+        if !script.is_empty() {
+            o.feat("history:lazy-workbook-and-clone");
+        }
+        for opi in 0..nops.max(script.len() as u32) {
+            let mut bi = rng.below(books.len() as u64) as usize;
+            let mut op = rng.below(20);
+            if let Some(&(b, forced)) = script.get(opi as usize) {
+                if b < books.len() {
+                    bi = b;
+                    op = forced;
+                }
+            }
             let nsheets = books[bi].get_sheet_count();
             let si = rng.below(nsheets as u64) as usize;
             let pos = (rng.range(1, 5), rng.range(1, 6));
-            let mut op = rng.below(20);
             if op == 19 {
                 // a save that fails after its sheets were serialised: a lazily opened workbook whose materialised sheet holds a
                 // chart over a sheet that is still unloaded makes the chart writer panic (recorded as KF-C11-chart-cache-unloaded-sheet).
